@@ -171,7 +171,7 @@ def check_props(prop_id, timeout=900):
     for blk in re.findall(r"Axioms:\n((?:.+\n?)+?)(?:\n|$)", out):
         for line in blk.splitlines():
             m = re.match(r"^(\S+)\s*:", line)
-            if m:
+            if m and m.group(1) != "Axioms":
                 axioms.append(m.group(1))
     return dict(ok=ok, theorems=theorems, closed=closed, axioms=sorted(set(axioms)), log=out[-3000:])
 
@@ -324,6 +324,10 @@ class Check:
         # a compiled Props file means the kernel accepted every theorem in it
         self.discharged = (len(pr["theorems"]) + extra_obligations) if pr["ok"] else min(pr["closed"], max(len(pr["theorems"]) - 1, 0))
         self.axioms = pr["axioms"]
+        allowed = ("ClassicalDedekindReals.", "FunctionalExtensionality.", "Classical_Prop.", "Eqdep.", "ProofIrrelevance.", "JMeq.")
+        ours = [a for a in self.axioms if not a.startswith(allowed)]
+        if ours:
+            self.broken.append("a property theorem depends on an axiom outside the standard library: " + ", ".join(ours[:6]))
         self.checker_cmd = f"coqc -Q coq Verif coq/Props/{self.id}.v (after make -C coq {' '.join(make_targets)})"
         if not pr["ok"]:
             m = re.search(r"File \"[^\"]*Props/(\w+)\.v\", line (\d+)", pr["log"])
@@ -349,7 +353,12 @@ class Check:
             if rc != 0 or not m:
                 self.broken.append("coqchk rejects the compiled theorem file: " + out.strip()[-300:])
             elif self.coqchk != "<none>":
-                self.broken.append("coqchk reports axioms: " + self.coqchk[:300])
+                # axioms the standard library itself declares (real numbers, classical logic, functional
+                # extensionality: used by the Flocq bound of C19 only) are named in DESIGN.md; anything else is ours
+                names = re.findall(r"[\w.]+", self.coqchk)
+                foreign = [n for n in names if not n.startswith(("Coq.Reals.", "Coq.Logic.", "Coq.Sets.", "Coq.setoid_ring.", "Coq.Floats.", "Coq.Numbers."))]
+                if foreign:
+                    self.broken.append("coqchk reports axioms outside the standard library: " + ", ".join(foreign[:8]))
             for key in ("type-in-type", "unsafe (co)fixpoints", "positivity is assumed"):
                 mm = re.search(re.escape(key) + r":\s*(\S+)", out)
                 if mm and mm.group(1) != "<none>":
